@@ -27,7 +27,7 @@ REQUIRE = {
     "monitors": {"bare BW family == formula": 30, "generic BW clauses": 30, "barrier factors": 30, "model == documented formula": 40,
                  "sympy denominator == 1/shape": 8},
     "cover": {"model": ["BW", "default", "BWR2", "BWR_below", "BWR_normal", "BWR_coupling", "BWR_LS", "BWR_LS2", "MultiBWR", "GS_rho",
-                        "Flatte", "FlatteC", "one", "exp", "exp_com", "x"], "BWR_LS_waves": [2, 3]},
+                        "Flatte", "FlatteC", "one", "exp", "exp_com", "x"], "BWR_LS_waves": [2, 3], "bw_l": ["explicit 0", "from the decay"]},
     "min_nontrivial": 60,
 }
 LEVEL_TEXT = ("Differential runtime monitor: the bare line-shape/barrier functions and Particle.__call__(m) of every registered model with a "
@@ -162,6 +162,12 @@ def run(ctx):
         ls_model = model in ("BWR_LS", "BWR_LS2", "MultiBWR")
         J = 1 if ls_model else int(rng.integers(0, 5))
         part = {"J": J, "P": 1 if ls_model else (-1) ** J, "mass": m0, "width": g0, "model": model}
+        # an explicitly configured bw_l (including 0) overrides the orbital angular momentum of the decay in the running width
+        bw_l_cfg = None
+        if model in ("default", "BWR2", "BWR_normal", "BWR_coupling", "BWR_below") and (i // len(MODELS)) % 3 == 1:
+            bw_l_cfg = (MODELS.index(model) * 3 + i // len(MODELS)) % 4  # deterministic rotation: the default model meets bw_l = 0 in the quick tier
+            part["bw_l"] = bw_l_cfg
+        ctx.covered("bw_l", "explicit %d" % bw_l_cfg if bw_l_cfg is not None else "from the decay")
         extra = {}
         if model in ("Flatte", "FlatteC"):
             extra["mass_list"] = [[mB, mD], [float(rng.uniform(0.2, 0.6)), float(rng.uniform(0.2, 0.6))]]
@@ -217,7 +223,7 @@ def run(ctx):
             m = np.concatenate([np.linspace(max(0.05, lo - 0.3), lo - 1e-3, 10), m])
         q, q2 = ls.q_of(m, mB, mD), ls.q2_of(m, mB, mD)
         q0, q02 = ls.q_of(m0, mB, mD), ls.q2_of(m0, mB, mD)
-        L = J
+        L = J if bw_l_cfg is None else bw_l_cfg
         d = 3.0
         try:
             if below_thr and model in ("BWR2", "BWR_below"):
